@@ -62,7 +62,7 @@ WireRun(h) == h.out.set /\ h.par.entry = "proto"
 snt1(h) == SentOfRun(h, 1)
 dl1(h) == DelOfRun(h, 1)
 
-PropIds == {"C01", "C02", "C03", "C04", "C05", "C06", "C07", "C08", "C09", "C10", "C11", "C15", "C19", "C20"}
+PropIds == {"C12", "C01", "C02", "C03", "C04", "C05", "C06", "C07", "C08", "C09", "C10", "C11", "C15", "C19", "C20"}
 ReqRun(h) == h.out.set /\ h.par.entry = "run"
 EngRun(h) == h.out.set /\ h.par.entry = "engine"
 
@@ -90,6 +90,22 @@ C09_twin(h, s, d) ==
           /\ \A k \in 1..m : \/ (a[k].addr = b[k].addr /\ a[k].dest = b[k].dest /\ (injDest \/ a[k].rtt_us = b[k].rtt_us))
                               \/ InjAnswers(h, s, d, a[k].ttl, a[k].addr)
 
+\* C12 (end to end): with the real programs applied by the capture handle the result equals the unfiltered twin's,
+\* and each protocol installs the filter specification that fits its flow
+C12_twin(h, s) ==
+    LET fs == SelectSeq(h.hlog, LAMBDA e : e.ev = "SetFilter")
+        tgt == h.par.target
+        ap(a, p) == IF h.par.variant \in {"icmp6", "udp6"} THEN "[" \o a \o "]:" \o ToString(p) ELSE a \o ":" \o ToString(p)
+    IN /\ h.out.ok = h.twin.ok /\ HopProj(h.out.hops) = HopProj(h.twin.hops) /\ h.out.err.msg = h.twin.err.msg
+       /\ Len(fs) >= 1
+       /\ CASE IsICMPv(V(h)) \/ IsUDPv(V(h)) -> Len(fs) = 1 /\ fs[1].ftype = 1
+            [] IsSYNv(V(h)) -> /\ Len(fs) = 1 /\ fs[1].ftype = 3
+                               /\ (Len(s) >= 1 => fs[1].fsrc = ap(s[1].p.dst, s[1].p.dport) /\ fs[1].fdst = ap(s[1].p.src, s[1].p.sport))
+            [] IsSACKv(V(h)) -> /\ fs[1].ftype = 4
+                                /\ (Len(fs) >= 2 => fs[2].ftype = 3)
+                                /\ (Len(s) >= 1 => Len(fs) = 2 /\ fs[2].fsrc = ap(s[1].p.dst, s[1].p.dport) /\ fs[2].fdst = ap(s[1].p.src, s[1].p.sport))
+            [] OTHER -> TRUE
+
 \* is property p applicable to the finished scenario h / does it hold (evaluated lazily, only when applicable)
 App(p, h) ==
     LET s == snt1(h)  ok == h.out.ok IN
@@ -99,6 +115,7 @@ App(p, h) ==
       [] p \in {"C01", "C04", "C05"} -> WireRun(h) /\ ok
       [] p \in {"C02", "C03"}        -> WireRun(h) /\ ok /\ Len(s) >= 1
       [] p \in {"C06", "C08", "C10"} -> WireRun(h)
+      [] p = "C12" -> WireRun(h) /\ h.par.filter /\ h.twinof # "" /\ h.twin.set /\ h.twin.scen = h.twinof
       [] p = "C09" -> /\ WireRun(h) /\ h.twinof # "" /\ h.twin.set /\ h.twin.scen = h.twinof
                       \* the one packet that may end a run: an ACK on the probed SACK connection without SACK blocks
                       /\ ~(IsSACKv(V(h)) /\ \E i \in DOMAIN dl1(h) : \E j \in DOMAIN s :
@@ -120,6 +137,7 @@ Holds(p, h) ==
       [] p = "C05" -> C05_run(h, s, d, hp)
       [] p = "C06" -> C06_Sends(h, s) /\ C06_Stop(h, s, d) /\ C06_Endpoints(h, s, h.out)
       [] p = "C08" -> C08_run(h)
+      [] p = "C12" -> C12_twin(h, s)
       [] p = "C09" -> C09_twin(h, s, d)
       [] p = "C10" -> C10_run(h)
       [] OTHER -> TRUE
